@@ -100,7 +100,7 @@ def check_host(col, ref, trie_funcs, host, form="%s", ctx=None):
 # ------------------------------------------------------------------ bundled list
 ALL_RULES = list(tld_data.PUBLIC_SUFFIXES) + list(tld_data.PRIVATE_SUFFIXES)
 BUNDLED = (tld.split_suffix, tld.get_domain_name, tld.has_valid_suffix)
-FORMS = ["%s", "http://%s/a/b?x=1", "https://u@%s:8080/", "%s.", "//%s"]
+FORMS = ["%s", "http://%s/a/b?x=1", "https://u@%s:8080/", "%s.", "//%s", "%s?x=1", "%s#f", "%s:8080", "u:p@%s/a", "%s/a?b#c", "HTTP://%s?x=1"]
 
 
 def hosts_for_rule(rule, rnd):
